@@ -12,6 +12,10 @@ CLAIMED = {
    text="Machine-checked proof (Coq) that every integer operator (+ - * // % divmod ** pow3 << >> & | ^ ~ neg abs, six comparisons, truth) returns the exact Z result in canonical representation for operands of any magnitude in all word/big representation combinations. The word-arithmetic kernel of py/int.go (overflow guards, floor division, shifts) is translated to Gallina by go2v on every run, so the guard-exactness theorems are about the current source; BigInt paths and operator dispatch are a hand-written model tied by correspondence (vm_compute in Coq) on a boundary lattice, with an exact-integer oracle.",
    note="Trusted: Coq kernel; go2v's semantics for int64/math/big; hand-written BigInt/dispatch model (correspondence-tied, sampled); math/big, strconv. Partial: text conversion (str/int/hex/oct/bin/literals) and Bool operands are covered by the oracle comparison only, not by a theorem; shift counts beyond a word are a listed finding.",
    technique="Rocq/Coq proof over a go2v translation of the Go source (lia/nia) + hand model tied by vm_compute correspondence", ref="5/C07"),
+ "C13": dict(
+   text="Machine-checked proof (Coq) that slice normalisation (Slice.GetIndices) equals Python's clipping rule for bounds and steps of any magnitude or None, that the slice count is exactly the number of selected indices, that the shared element loop reads those indices in order, and that the range length helper (go2v translation) is exact when stop-start fits a word. GetIndices and the range helpers are re-translated from the Go source by go2v on every run; the translation is compared with the structured model exhaustively on the boundary lattice inside Coq and with the real function through the Go API. Element-level operations of the five sequence types (including no-alias / operand-intact checks) are compared with CPython (validated oracle, testing).",
+   note="Trusted: Coq kernel; go2v; the structured GetIndices model is tied to the regenerated translation only on the finite lattice (29^3 x 8 points, inside Coq) plus sampled Go API runs. Partial: per-type element loops, aliasing and error classes of list/tuple/str/range/bytes are covered by differential testing against CPython 3.11, not by theorems.",
+   technique="Rocq/Coq proof (lia/nia) of a structured model + in-kernel exhaustive comparison with the go2v translation of the source + CPython differential for element operations", ref="5/C13"),
 }
 NOT_YET = "check not built yet in this round (planned in DESIGN.md section 8)"
 checks = []; na = []
